@@ -42,18 +42,16 @@ Definition gen_array_insert (growOnReserve : bool) (items : Z -> Z) (cnt cap_ ba
 (* item = ANY element of the array (aliased, any position relative to index) or an external object; any capacity (growth or not):
    the count inserted cells all hold the value the item had when the call started; prefix untouched; tail shifted up by count *)
 Theorem gen_array_insert_spec (growOnReserve : bool) (items : Z -> Z) cnt cap_ base index count it ptr tmp :
-  0 <= index -> index <= cnt -> cnt <= cap_ -> cap_ < U64 - 1 -> 0 <= count -> cnt + count < U64 - 1 ->
+  0 <= index -> index <= cnt -> cnt <= cap_ -> cap_ < U64 -> 0 <= count -> cnt + count < U64 ->
   0 <= base -> base + cnt < U64 -> 0 <= ptr < U64 -> U64 <= tmp ->
   ((0 <= it < cnt /\ ptr = base + it) \/ (U64 <= it /\ (ptr < base \/ base + cnt <= ptr))) ->
-  (* growth never asks for more than the address space (GrowCapacity's result is a valid capacity) *)
-  (forall r, GrowCapacity growOnReserve cap_ (cnt + count) 0 false = Ok r -> r < U64 - 1) ->
   exists items' cap', gen_array_insert growOnReserve items cnt cap_ base index count it ptr tmp = Ok (items', cnt + count, cap') /\
     cnt + count <= cap' /\
     (forall j, 0 <= j < index -> items' j = items j) /\
     (forall j, index <= j < index + count -> items' j = items it) /\
     (forall j, index + count <= j < cnt + count -> items' j = items (j - count)).
 Proof.
-  intros Hx Hxn Hcc HU Hc Hfit Hb Hbw Hp Htmp Hit Hgrow.
+  intros Hx Hxn Hcc HU Hc Hfit Hb Hbw Hp Htmp Hit.
   unfold gen_array_insert.
   rewrite (GuardProofs.insert_prefix_spec cnt cap_) by (unfold GuardProofs.u64, GuardProofs.U, U64 in *; lia).
   unfold GuardProofs.U. destruct (Z.ltb_spec (2 ^ 64 - 1) (cnt + count)); [unfold U64 in *; lia|]. cbv iota beta.
@@ -62,7 +60,7 @@ Proof.
   - (* growth: copy first *)
     simpl negb. simpl orb. cbv iota.
     destruct (GrowProofs.grow_capacity_ge growOnReserve cap_ (cnt + count) 0 false) as (r & Hr & Hr1 & Hr2); try (unfold U64 in *; lia).
-    rewrite Hr. specialize (Hgrow r Hr).
+    rewrite Hr.
     destruct (ShiftLoopProofs.shift_insert_spec (upd items tmp (items it)) cnt r index count tmp) as (items' & -> & H1 & H2 & H3 & H4);
       try (unfold ShiftLoopProofs.U64, U64 in *; lia).
     exists items', r. simpl. split; auto. split; [lia|].
